@@ -1,0 +1,59 @@
+//go:build verif
+
+package inactivity
+
+import (
+	"github.com/ipfs/go-log/v2"
+
+	"github.com/keep-network/keep-core/pkg/net"
+	"github.com/keep-network/keep-core/pkg/protocol/group"
+	"github.com/keep-network/keep-core/pkg/protocol/state"
+)
+
+// Verification hooks for property C13 (thin wrappers, no behaviour of their
+// own).
+
+// VerifC13NewClaimSigningState builds the first state of the claim
+// publication the way PublishClaim does and returns it with the group of its
+// member.
+func VerifC13NewClaimSigningState(
+	logger log.StandardLogger,
+	memberIndex group.MemberIndex,
+	channel net.BroadcastChannel,
+	groupSize int,
+	dishonestThreshold int,
+	membershipValidator *group.MembershipValidator,
+	sessionID string,
+	claimSigner ClaimSigner,
+	claimSubmitter ClaimSubmitter,
+	claim *ClaimPreimage,
+) (state.AsyncState, *group.Group) {
+	member := newSigningMember(
+		logger,
+		memberIndex,
+		groupSize,
+		dishonestThreshold,
+		membershipValidator,
+		sessionID,
+	)
+	return &claimSigningState{
+		BaseAsyncState: state.NewBaseAsyncState(),
+		channel:        channel,
+		claimSigner:    claimSigner,
+		claimSubmitter: claimSubmitter,
+		member:         member,
+		claim:          claim,
+	}, member.group
+}
+
+// VerifC13Signatures returns the valid signatures held by the signatures
+// verification state or the claim submission state, nil for any other state.
+func VerifC13Signatures(st state.AsyncState) map[group.MemberIndex][]byte {
+	switch s := st.(type) {
+	case *signaturesVerificationState:
+		return s.validSignatures
+	case *claimSubmissionState:
+		return s.signatures
+	}
+	return nil
+}
